@@ -10,6 +10,7 @@ use nuts_rs::{CpuLogpFunc, CpuMathError, HasDims, ItemType, LogpError, Storable,
 use serde_json::{Value as J, json};
 use thiserror::Error;
 
+pub mod model;
 pub mod rngs;
 pub mod wrapmath;
 
@@ -140,6 +141,10 @@ pub struct TestLogp {
     /// when set, expand_vector fails
     pub expand_fails_at: Option<u64>,
     pub expand_count: Arc<Mutex<u64>>,
+    /// sleep per evaluation (to vary chain speed)
+    pub sleep_us: u64,
+    /// which chain of a parallel run this density belongs to
+    pub chain_tag: Option<u64>,
 }
 
 impl TestLogp {
@@ -157,6 +162,8 @@ impl TestLogp {
             schema: DrawSchema::default(),
             expand_fails_at: None,
             expand_count: Arc::new(Mutex::new(0)),
+            sleep_us: 0,
+            chain_tag: None,
         }
     }
     pub fn std_normal(dim: usize) -> Self {
@@ -320,6 +327,9 @@ impl CpuLogpFunc for TestLogp {
     }
 
     fn logp(&mut self, position: &[f64], gradient: &mut [f64]) -> Result<f64, TestLogpError> {
+        if self.sleep_us > 0 {
+            std::thread::sleep(std::time::Duration::from_micros(self.sleep_us));
+        }
         let k = {
             let mut log = self.log.lock().unwrap();
             let k = log.count;
